@@ -45,7 +45,11 @@ def probes():
     probe("v_mul/v_add model on extended reals", lambda: (0 * oo is nan or sp.sympify(0 * oo) is S.NaN) and oo + (-oo) is S.NaN and oo * -2 == -oo and oo + 5 == oo)
     probe("pytest.approx", lambda: (1001 == pytest.approx(1000, rel=0.001, abs=0)) and not (1001.01 == pytest.approx(1000, rel=0.001, abs=0)) and
           (5.4 == pytest.approx(5, rel=0, abs=0.5)) and not (5.6 == pytest.approx(5, rel=0, abs=0.5)) and not (float("nan") == pytest.approx(float("nan"))) and
-          _raises(lambda: 2 == pytest.approx(1, rel=-1), ValueError))
+          _raises(lambda: 2 == pytest.approx(1, rel=-1), ValueError) and
+          # rel=None with abs given: only the absolute tolerance counts; both None: 1e-6 relative, 1e-12 absolute
+          (1000.4 == pytest.approx(1000, rel=None, abs=0.5)) and not (1000.6 == pytest.approx(1000, rel=None, abs=0.5)) and
+          not (1000.002 == pytest.approx(1000, rel=None, abs=0.001)) and (1000.0005 == pytest.approx(1000)) and not (1000.002 == pytest.approx(1000)) and
+          (1e-13 == pytest.approx(0)) and (1000.5 == pytest.approx(1000, rel=0.001, abs=None)))
     probe("str(int)", lambda: len({str(i) for i in range(2000)}) == 2000 and all(str(i).isdigit() for i in range(2000)))
 
     def bind_probe():
